@@ -379,7 +379,9 @@ Returns:
         if key == f.INDEPENDENT_VARIABLE:
             continue
         keys.append(key)
-        vals.append(filled(var[:]).ravel())
+        # missing cells carry the code declared on header line 12
+        vals.append(filled(
+            var[:], getattr(var, 'missing_value', -999)).ravel())
 
     print(delim.join(keys), file=outfile)
     for row in array(vals).T:
